@@ -4,7 +4,7 @@ From Coq Require Import ZArith List Ascii String Sorted.
 From Verif Require Import Base.Prelude Base.Str Base.Float Schema.Regex Schema.Units Schema.FloatUnits Generated.Tables
   Proofs.UnitsArith Proofs.UnitsSweep Proofs.UnitsBuiltin Proofs.UnitsFloat
   Proofs.UnitsStringRe Proofs.UnitsStringTok Proofs.UnitsStringSound Proofs.UnitsStringRound
-  Proofs.UnitsStringRT Proofs.UnitsStringWitness.
+  Proofs.UnitsStringRT Proofs.UnitsStringWitness Proofs.UnitsStringFloat.
 Import ListNotations.
 Open Scope Z_scope.
 Open Scope list_scope.
@@ -108,8 +108,8 @@ Proof. vm_compute. repeat split; reflexivity. Qed.
    optional spaces, then for every multiplier in strictly DESCENDING order and last for the base
    unit either nothing or  count, optional spaces, one of the four declared names of that unit
    (the base unit may stay unnamed), optional spaces; the counts are non-empty digit runs;
-   n is EXACTLY  sum count x multiplier  (absent unit = 0), and every partial sum (largest
-   unit first) is an int64.  Rests on the soundness of the backtracking matcher w.r.t. a
+   n is EXACTLY  sum count x multiplier  (absent unit = 0), every partial sum (largest
+   unit first), every count and every product is an int64.  Rests on the soundness of the backtracking matcher w.r.t. a
    declarative semantics of the whole regexp language of Schema/Regex.v (C16_matcher_sound). *)
 Theorem C16_matcher_sound : forall r whole s cs,
   re_match_at r whole s = Some cs -> exists s', re_matches whole r s s' [] cs.
@@ -128,6 +128,7 @@ Theorem C16_parse_sound : forall u s n, wf_units u = true -> parse_units_int u s
     tokenisation u (chars (trim_space s)) toks
     /\ n = dot (map tok_count toks) (units_keys u)
     /\ (forall k, in_i64 (dot (firstn k (map tok_count toks)) (units_keys u)) = true)
+    /\ Forall (fun cm => in_i64 (fst cm) = true /\ in_i64 (fst cm * snd cm) = true) (combine (map tok_count toks) (units_keys u))
     /\ StronglySorted mult_gt (sorted_mults u).
 Proof. exact parse_sound. Qed.
 Print Assumptions C16_parse_sound.
@@ -225,6 +226,39 @@ Proof.
   pose proof w_shared_fails. pose proof w_prefix_fails. pose proof w_digit_fails.
   pose proof w_trail_fails. pose proof w_dot_fails. pose proof w_point_fails. tauto.
 Qed.
+
+(* (7) The float entry point at string level, ARBITRARY definitions.  A successful ParseFloat reads
+   a tokenisation of its input (same template, same matcher; only the base count may carry a
+   fraction) and its answer is the accumulation with the correctly rounded + and x of
+   Schema/FloatUnits.v over exactly these tokens ... *)
+Theorem C16_parse_float_sound : forall u s x, wf_units u = true -> parse_units_float u s = Some x ->
+  exists sp0 body toks st,
+    chars (trim_space s) = sp0 ++ body /\ spaces sp0 = true /\ useq (uparts u) body toks
+    /\ fold_left facc (combine toks (units_keys u)) (Some (0, FZero false, false)) = Some st
+    /\ x = fresult st.
+Proof. exact parse_float_sound. Qed.
+Print Assumptions C16_parse_float_sound.
+
+(* ... and wherever ParseInt answers n, ParseFloat answers the correctly rounded float64 of that
+   exact integer (any definition, any string): no second, diverging reading of integer inputs;
+   in particular the integer formatters' output reads back through ParseFloat as float64(n). *)
+Theorem C16_parse_float_of_int : forall u s n,
+  parse_units_int u s = Some n -> parse_units_float u s = Some (fl_of_Z b64 n).
+Proof. exact parse_float_of_int. Qed.
+Print Assumptions C16_parse_float_of_int.
+
+Theorem C16_format_int_parse_float : forall u n,
+  wf_units u = true -> names_unambiguous u = true -> 0 <= n <= max_i64 ->
+  parse_units_float u (format_short_int u n) = Some (fl_of_Z b64 n)
+  /\ parse_units_float u (format_long_int u n) = Some (fl_of_Z b64 n).
+Proof. exact format_int_parse_float. Qed.
+Print Assumptions C16_format_int_parse_float.
+
+Example C16_parse_float_nonvacuous :
+  parse_units_int unit_duration_seconds "1m30s" = Some 90
+  /\ parse_units_float unit_duration_seconds "1m30s" = Some (fl_of_Z b64 90)
+  /\ exists x, parse_units_float unit_duration_seconds "1m 30.5 s" = Some x.
+Proof. split; [vm_compute; reflexivity|]. split; [vm_compute; reflexivity|]. eexists. vm_compute. reflexivity. Qed.
 
 (* NOT proved: the float-side round trip within tolerance (see (4)); that the conditions of
    names_unambiguous are the weakest possible (they are sufficient, and each clause is needed
